@@ -1,6 +1,7 @@
 import FloVerif.Driver.Util
 import FloVerif.Model.Graph
 import FloVerif.Model.GraphSplit
+import FloVerif.Gen.Clockwise
 /-!
 Correspondence for C03: the hand model `Model.Graph` of the `GraphPath` structure against traces of the real
 `from_path`, `merge` and `detect_collisions` (hook `verif_collide_trace`: private structure between the stages and
@@ -229,6 +230,17 @@ def handle (op : String) (ins outs : List String) : List Out :=
   | "merge" => handleMerge ins outs
   | "collide" => handleCollide ins outs
   | "final" => handleFinal ins outs
+  | "cw" =>
+    -- ins: #n x0 y0 ...; outs: points_are_clockwise, path.is_clockwise() (the path's end points).  Generated function at Float.
+    let n := parseNat (ins.headD "#0")
+    let fl (s : String) : Float := Float.ofBits (parseHex s)
+    let rec pts : List String → List (V2 Float)
+      | x :: y :: rest => ⟨fl x, fl y⟩ :: pts rest
+      | _ => []
+    let model := Gen.points_are_clockwise (pts ((ins.drop 1).take (2 * n)))
+    let a := parseNat (outs.getD 0 "#0") == 1
+    let b := parseNat (outs.getD 1 "#0") == 1
+    [mk "points_are_clockwise" (model == a) s!"model {model} impl {a}", mk "is_clockwise" (model == b) s!"model {model} path.is_clockwise {b}"]
   | _ => [mk ("unknown-op " ++ op) false "driver does not know this operation"]
 
 end Driver.C03
